@@ -176,6 +176,18 @@ fn build_dyn<R: Ord + 'static>(items: &[(Node, usize)], log: &Log, next: &mut us
             Node::Dyn(inner) => match build_dyn::<R>(inner, log, next) { Ok(d) => push!(d), Err(e) => e },
         };
         if !msg.is_empty() { return Err(msg); }
+        // incremental building with use in between ("select, then add a selector, then select"): on about half
+        // of the lists the partly built combination is used once on an empty population before it is extended;
+        // a stateless combination cannot notice (the call log is restored)
+        if (w.wrapping_add(items.len())) % 2 == 0 {
+            if let Some(d) = dw.as_ref() {
+                let keep = log.lock().unwrap().len();
+                let emp: Vec<Ind<R>> = Vec::new();
+                let mut t = SplitMix::new(w as u64 ^ 0x5EED);
+                let _ = d.select(&emp, &mut t);
+                log.lock().unwrap().truncate(keep);
+            }
+        }
     }
     Ok(dw.expect("DynWeighted needs at least one selector"))
 }
